@@ -324,7 +324,7 @@ PROPS["C18"] = dict(
     note="Not asserted (labelled only): textual look-alike prefixes (/rootkit vs /root) and paths in which a prefix re-occurs inside; when a regexp mapping or the /Volumes rule can interfere only the prefix rule and no-panic are asserted; removal of the home/cwd mapping is only exercised in the caller-field test (cwd). Mappings onto their own prefix and cyclic mapping chains are not generated; when a registered replacement itself lies under a protected prefix, that prefix may show (the user asked for it).",
     rule=("rapid draws 0-6 table operations, the two flags and 1-4 paths. Non-trivial: >= 2 applicable mappings, or an absolute replacement, or a "
           "remove before the query; distinct = (table history, flags, paths)."
-          " A quarter of the mappings are registered with a trailing separator; flags are set through all public ways."),
+          " A quarter of the mappings are registered with a trailing separator; flags are set through all public ways. The caller-field test emits one or two records from the same call statement, the privacy flag drawn anew for each."),
     assumptions=["HOME and the working directory of the harness process are the home/cwd the package captured at init"],
     stages=[
         dict(name="safety", run="^TestSafety$", quick=15000, thorough=600000, shards=16, timeout_thorough=3000),
@@ -372,7 +372,7 @@ PROPS["C15"] = dict(
     rule=("rapid draws the scenario. Non-trivial (handler): a derivation chain of length >= 1, a group / LogValuer / Any attribute, or a "
           "non-standard level; distinct = (format, logger level, slog level, chain length, class set, path, emitted). Bridge: every case is "
           "keyed by (level, severity, admitted, call, newline count)."
-          " Every intermediate handler also gets decoy siblings derived after the real one; 1-3 records go through the same handler; the logger's level may change after the bridge was built; up to 7 WithAttrs steps; record attributes may collide with handler attribute keys (last wins; effectively empty groups under a handler key are not generated)."),
+          " Every intermediate handler also gets decoy siblings derived after the real one; 1-3 records go through the same handler; the logger's level may change after the bridge was built; up to 7 WithAttrs steps; record attributes may collide with handler attribute keys (last wins; effectively empty groups under a handler key are not generated); JSON records may carry one attribute with an empty key and a non-zero value."),
     assumptions=["log/slog of the building toolchain constructs the records"],
     stages=[
         dict(name="levels", run="^TestLogLevelMapping$", quick=1, thorough=1),
@@ -396,7 +396,7 @@ PROPS["C10"] = dict(
     note="Each case installs a fresh default logger (the process-wide one keeps children of earlier cases and has no public reset). Every logger gets private recording writers right after creation (child loggers do not inherit writers). The wall clock seeding the anonymous names cannot be owned by the harness: covered by the stress test. The production-binary stage checks the Warn default level.",
     rule=("rapid draws the history. Non-trivial: >= 3 loggers and (a With* and a Set* occurred, or New was called with the name of an existing "
           "child); distinct = the history text."
-          " Child names may repeat names used elsewhere in the forest; attrs1 settings may hand the same Attrs value (drawn from a pool with spare capacity) to several loggers; writers are installed with Set* or with Add* on top of the inherited defaults."),
+          " Child names may repeat names used elsewhere in the forest; the package default level is modelled (changed by the package-level SetLevel only, compared with GetLevel after every step); attrs1 settings may hand the same Attrs value (drawn from a pool with spare capacity) to several loggers; writers are installed with Set* or with Add* on top of the inherited defaults."),
     assumptions=["gating oracle = C01 rule incl. the debug-mode side effect of SetLevel(Debug)", "record decoding = C04/C05 decoders, merge = C07 reference"],
     stages=[
         dict(name="testing", run="^TestHierarchy$", quick=4000, thorough=800000, shards=16, timeout_thorough=3000),
@@ -418,7 +418,7 @@ PROPS["C08"] = dict(
     note="WEAKEST claim of the set: interleavings are sampled by the Go scheduler, not enumerated or controlled; the race detector only reports races on executed paths. Concurrent reconfiguration while logging is outside the claim and never generated. A race report cannot be shrunk by rapid (it is attributed to the whole test); the replay re-runs the stage with the same seed.",
     rule=("Non-trivial: >= 2 goroutines share a logger and a group value or logger attributes or a parent/child pair are involved; distinct = "
           "(formats present, sharing shape, G bucket, number of loggers, GOMAXPROCS, multi-line)."
-          " Workloads may contain blank Print/Println calls (counted), loggers with context keys (every call carries its own context values) and unregistered numeric levels (one per goroutine); the Group value shared by the callers must be unmodified afterwards. Records may also arrive through log/slog adapters and std log bridges built before or after the loggers were configured, through per-level writers, and with attribute values of several kilobytes."),
+          " Workloads may contain blank Print/Println calls (counted), loggers with context keys (every call carries its own context values) and unregistered numeric levels (one per goroutine); the Group value shared by the callers must be unmodified afterwards. Some calls are plain verb methods without any argument; some pass a group of their own under the key of the logger-level shared group (the call's group wins). Records may also arrive through log/slog adapters and std log bridges built before or after the loggers were configured, through per-level writers, and with attribute values of several kilobytes."),
     assumptions=["the recording writers are mutex-protected and copy the payload before returning"],
     stages=[
         dict(name="race", run="^TestConcurrentWorkloads$", race=True, crash_is_violation=True, quick=400, thorough=16000, shards=8, timeout_quick=900, timeout_thorough=3000),
